@@ -751,7 +751,14 @@ class Fxp():
             raise ValueError('Not supported input type: {}'.format(type(val)))
 
         # convert to (numpy) ndarray
+        _val = val
         val = np.array(val)
+
+        if val.dtype.kind == 'f' and isinstance(_val, (list, tuple)):
+            # a list of python integers that don't fit all in int64 (or uint64) is converted to float64 by numpy
+            _val = np.array(_val, dtype=object)
+            if all(isinstance(v, int) for v in _val.ravel()):
+                val = _val
 
         if vdtype is None:
             vdtype = val.dtype
